@@ -102,7 +102,7 @@ def run_property(a):
     if a.replay:
         import replay
         return replay.replay_file(a.replay)
-    groups = run.load_groups()
+    groups = run.load_groups(all_units=bool(a.only))
     sel = run.select(groups, pid, tier, a.only)
     if not sel:
         run.log('no groups for', pid, tier)
